@@ -178,6 +178,21 @@ def _multisets(cs, cap=400):
 
 def b03(ctx, orc):
     fails = []
+    # the order of first use must not matter: on a twin context neighbors() (Lindig's cover search) and a closure
+    # lookup run BEFORE the lattice is first built
+    try:
+        twin = type(ctx)(list(orc.objects), list(orc.properties), [tuple(bool(c) for c in r) for r in orc.table])
+        abandon(iter(twin.neighbors(list(orc.objects[:1]))))
+        for k in range(min(orc.n, 3)):
+            list(twin.neighbors([orc.objects[k]]))
+        list(twin.neighbors([]))
+        twin[list(orc.properties[:1])]
+        tgot = sorted((tuple(e), tuple(i)) for e, i in twin.lattice)
+        twant = sorted((orc.olabels(e), orc.plabels(i)) for e, i in orc.concepts())
+        if tgot != twant:
+            fails.append(f'lattice built after neighbors() calls on the same context: {tgot!r} != formal concepts {twant!r}')
+    except (KeyError, IndexError, AttributeError, RuntimeError) as e:
+        fails.append(f'lattice built after neighbors() calls on the same context raised {type(e).__name__}: {e}')
     lat = ctx.lattice
     abandon(iter(lat))
     got = [(tuple(e), tuple(i)) for e, i in lat]
@@ -574,8 +589,11 @@ def b20(ctx, orc):
     cs = list(lat)
     custom_o = lambda xs: '+'.join(xs) + '!'
     custom_p = lambda xs: '/'.join(reversed(xs))
-    for mo, mp, tag in ((' '.join, ' '.join, 'default'), (custom_o, custom_p, 'custom'),
-                        (custom_o, ' '.join, 'custom-object-only'), (' '.join, custom_p, 'custom-property-only')):
+    forms = ((' '.join, ' '.join, 'default'), (custom_o, custom_p, 'custom'),
+             (custom_o, ' '.join, 'custom-object-only'), (' '.join, custom_p, 'custom-property-only'))
+    # every form twice: in between the caller customises the drawing it was handed (extra node attributes, an extra
+    # edge) -- later drawings of the same lattice must not carry those edits
+    for mo, mp, tag in forms + tuple((a, b, t + ' (after the caller edited an earlier drawing)') for a, b, t in forms):
         kw = {}
         if mo is custom_o:
             kw['make_object_label'] = mo
@@ -606,6 +624,12 @@ def b20(ctx, orc):
                     got_labels.append((a, k, d[k]))
         if sorted(got_labels) != sorted(want_labels):
             fails.append(f'{tag}: label edges {sorted(got_labels)} != {sorted(want_labels)}')
+        try:
+            dot.node(f'c{cs[-1].index}', color='red')
+            dot.edge(f'c{cs[0].index}', f'c{cs[-1].index}', style='dashed')
+            dot.body.append('\tjunk\n')
+        except (AttributeError, TypeError):
+            pass
     return fails
 
 
@@ -633,7 +657,7 @@ def b16(ctx, orc):
         want_bin.append((kind, left, right))
     want_un = [('tautology' if all(c) else 'contradiction' if not any(c) else 'contingency', orc.properties[j])
                for j, c in enumerate(cols)]
-    for include_unary in (False, True):
+    for include_unary in (False, True, False, True):
         rel = ctx.relations(include_unary=include_unary)
         got = [(r.kind, r.left, r.right) if r.__class__.binary else (r.kind, r.left) for r in rel]
         raw = (want_un if include_unary else []) + want_bin
@@ -647,6 +671,11 @@ def b16(ctx, orc):
             except Exception as e:
                 fails.append(f'{label}(relations(include_unary={include_unary})) with {len(rel)} entries raised '
                              f'{type(e).__name__}: {e}')
+        try:        # the caller edits the list it was handed: later calls must not be affected
+            rel.reverse()
+            del rel[:]
+        except (AttributeError, TypeError):
+            pass
     return fails
 
 
